@@ -13,7 +13,17 @@ import solve_oracles as so
 ACCEPT_TARGETS = ["DfolsVerif.Driver.AcceptDrv"]
 
 
-def gen_run(dfols, seed_tuple, allow=None, alarm=10.0, mutate_cfg=None, fault=None, maxfun_override=None):
+# A time limit is not a termination oracle: regularised runs with projections need ~2 s of CPU per ITERATION under the tracer
+# (S-FISTA x Dykstra: up to 500 x 100 x 4 projection calls, twice per iteration), so the checks that REPORT an alarm as
+# non-termination (C07 generic, C18; C08 does the same itself) ask for `patient=True`: a run that exceeds the short limit is
+# repeated from scratch with a long one first (thorough-tier false alarm of C07, DESIGN 5.1).  After two runs that also exceeded
+# the long limit the short one is taken at its word (a tree that hangs would otherwise cost SLOW_LIMIT per instance).  Suites
+# that only count alarms (C02, C03, C04, C10: a truncated run is simply not judged) keep the short limit.
+SLOW_LIMIT = 400.0
+SLOW_STATS = {"repeated_with_long_limit": 0, "confirmed_hangs": 0}
+
+
+def gen_run(dfols, seed_tuple, allow=None, alarm=10.0, mutate_cfg=None, fault=None, maxfun_override=None, patient=False):
     rng = np.random.default_rng(seed_tuple)
     prob = problems.rand_problem(rng)
     if allow is None:
@@ -46,6 +56,13 @@ def gen_run(dfols, seed_tuple, allow=None, alarm=10.0, mutate_cfg=None, fault=No
     # increase_npt) and the rank-repair loops of the projection branch: seed it so that every run replays exactly
     np.random.seed(int(sum((j + 1) * int(v) for j, v in enumerate(seed_tuple)) * 7919 % (2 ** 32)))
     t = tr.traced_solve(dfols, f, prob["x0"], alarm=alarm, h=h, **kw2)
+    if patient and isinstance(t.exception, core.Alarm) and alarm < SLOW_LIMIT and SLOW_STATS["confirmed_hangs"] < 2:
+        SLOW_STATS["repeated_with_long_limit"] += 1
+        prob, kw, d, t = gen_run(dfols, seed_tuple, allow=allow, alarm=SLOW_LIMIT, mutate_cfg=mutate_cfg, fault=fault,
+                                 maxfun_override=maxfun_override, patient=False)
+        d["repeated_with_long_limit"] = True
+        if isinstance(t.exception, core.Alarm):
+            SLOW_STATS["confirmed_hangs"] += 1
     return prob, kw, d, t
 
 
@@ -90,7 +107,7 @@ def describe(d: dict) -> dict:
 
 
 def run_trace_property(ctx, acc_name, n_quick, n_thorough, suite_const, oracle, allow=None, mutate_cfg=None,
-                       extra_compare=None, fault_kinds=None, alarm=10.0):
+                       extra_compare=None, fault_kinds=None, alarm=10.0, patient=False):
     """generic: generate runs; correspondence = acceptor `acc_name` accepts every real trace (and extra_compare
     of its prediction with the real result); search = oracle(trace, d, kw) -> [(sig, what)]"""
     dfols = core.import_dfols()
@@ -104,7 +121,7 @@ def run_trace_property(ctx, acc_name, n_quick, n_thorough, suite_const, oracle, 
             rngf = np.random.default_rng([ctx.seed, suite_const, i, 7])
             if rngf.random() < 0.7:
                 fault = (int(rngf.integers(0, 25)), fault_kinds[int(rngf.integers(len(fault_kinds)))])
-        prob, kw, d, t = gen_run(dfols, seed, allow=allow, alarm=alarm, mutate_cfg=mutate_cfg, fault=fault)
+        prob, kw, d, t = gen_run(dfols, seed, allow=allow, alarm=alarm, mutate_cfg=mutate_cfg, fault=fault, patient=patient)
         ctx.seen((suite_const, i, len(t.events)))
         stats["events"] += len(t.events)
         stats["evals"] += len(t.calls)
